@@ -72,7 +72,12 @@ pub enum HelpError<E: crate::verif_specs::embedded_io::Error> {
     UnknownCommand,
 }
 
-//@ #[verifier::external]   // NOT MIRRORED: From conversion glue (used by derive output and `?` in application code)
+//@ // the conversion `?` applies in the code emitted by derive(Command): a sink error becomes WriteError (verified, and
+//@ // known to callers through vstd's FromSpec)
+//@ impl<E: crate::verif_specs::embedded_io::Error> vstd::std_specs::convert::FromSpecImpl<E> for HelpError<E> {
+//@     open spec fn obeys_from_spec() -> bool { true }
+//@     open spec fn from_spec(v: E) -> Self { HelpError::WriteError(v) }
+//@ }
 impl<E: crate::verif_specs::embedded_io::Error> From<E> for HelpError<E> {
     fn from(value: E) -> Self {
         Self::WriteError(value)
@@ -111,8 +116,9 @@ pub trait Help {
         writer: &mut Writer<'_, W, E>,
     ) -> Result<(), E>;
 //@ // Contract of every implementor: prints through the Writer API and reports sink failures.  PROVED for the code
-//@ // emitted by #[derive(CommandGroup)] (module tmpl_group_help, two members of generic type) and for RawCommand; ASSUMED of
-//@ // the per-command printers emitted by #[derive(Command)].
+//@ // emitted by #[derive(CommandGroup)] (module tmpl_group_help, two members of generic type), for RawCommand, and for the
+//@ // statement fragments + impl literal of the #[derive(Command)] help generator (module tmpl_command_help); ASSUMED of the
+//@ // arm that generator emits for a command with a sub-command.
 //@ requires old(writer).wf(),
 //@ ensures crate::writer::writer_api_only(writer),   // [C14,C13]
 //@     r is Ok ==> final(writer).errs() == old(writer).errs(),   // [C14]
@@ -137,9 +143,14 @@ pub trait Help {
 //@     // the continuation that prints the parent's part of the usage line can be called with any well-formed Writer;
 //@     // stated on the closure itself (the pointee), so that it survives the reborrow when the reference is passed on
 //@     forall|w: &mut Writer<'_, W, E>| w.wf() ==> #[trigger] (*old(parent)).requires((w,)),
+//@     // ... and it uses the Writer through its API only and reports a sink failure
+//@     forall|w: &mut Writer<'_, W, E>, res: Result<(), E>| w.wf() && #[trigger] (*old(parent)).ensures((w,), res) ==>
+//@         crate::writer::writer_api_only(w) && (res is Ok ==> final(w).errs() == w.errs()),
 //@ ensures crate::writer::writer_api_only(writer),   // [C14,C13]
 //@     !(r matches Err(HelpError::WriteError(_))) ==> final(writer).errs() == old(writer).errs(),   // [C14]
 //@     forall|w: &mut Writer<'_, W, E>| w.wf() ==> #[trigger] (*final(parent)).requires((w,)),
+//@     forall|w: &mut Writer<'_, W, E>, res: Result<(), E>| w.wf() && #[trigger] (*final(parent)).ensures((w,), res) ==>
+//@         crate::writer::writer_api_only(w) && (res is Ok ==> final(w).errs() == w.errs()),
 }
 
 pub trait FromRaw<'a>: Sized {
